@@ -100,9 +100,10 @@ class PersistentRemoteWorker(PersistentWorker, RemoteWorker):
                 remote_counter, valid, value, wid = result
                 if not valid:
                     logger.debug('New message signalling end of partial results')
-                    self._results_pipe.child_end.put(result)
+                    # a terminated child can be off by one here (interrupted between counting a result and sending it),
+                    # report what has actually been received
+                    self._results_pipe.child_end.put((counter, False, None, wid))
                     last_partial_result_signalled = True
-                    assert remote_counter == counter, f'{remote_counter} {counter}'
                     assert value is None
                     assert wid == self.id
                 else:
